@@ -51,7 +51,7 @@ CLAIMED = {
          "Held-on-N-cases exploration over seeds, styles (Native, Ldk), networks and id sets.",
          "Far-away commitment numbers are observed with the test-only counter setter (not a state-machine property).",
          "C18"),
- "C06": ("stateful property-based testing on one node with 2-3 channels: generated approvals, per-channel content edits pushed to either commitment in any order, preimages, pruning, restarts; oracle = invariant over the ledger of accepted commitment contents (u128 msat); both validator factories (confirmed funding)",
+ "C06": ("stateful property-based testing on one node with 2-3 channels: generated approvals, per-channel content edits pushed to either commitment in any order, preimages, pruning, restarts; oracle = invariant over the ledger of accepted commitment contents (u128 msat); both validator factories (confirmed funding); wire execution: the same histories through the vls-protocol-signer handlers at negotiated protocol versions 4, 5 and 6 (PreapproveInvoice / PreapproveKeysend through the approver, SignRemoteCommitmentTx2, ValidateRevocation, ValidateCommitmentTx2, RevokeCommitmentTx, SignLocalCommitmentTx2, GetHeartbeat, handler restarts)",
          "Held-on-N-histories exploration; the genuine defect found (payments applied at revoke without re-validation) was repaired by a fix: commit and kept as a regression replay.",
          "Approval liveness (existence only) read from the node after pruning; issue-331 tolerated imbalance outside the oracle.",
          "C06"),
